@@ -15,13 +15,42 @@ import numpy as np  # noqa: E402
 from mdpax.utils.spaces import create_range_space  # noqa: E402
 
 
+def observe_sampled(mins, maxs, seed):
+    """Boxes too large to list: row count, sampled rows (first/last/around every stride boundary/random) and
+    sampled query vectors (corners, one step outside, random)."""
+    import random
+    rng = random.Random(seed)
+    space, index_fn = create_range_space(jnp.array(mins), jnp.array(maxs))
+    sp = np.asarray(space)
+    n, d = sp.shape[0], len(mins)
+    widths = [hi - lo + 1 for lo, hi in zip(mins, maxs)]
+    rows = {1, 2, n - 1, n}
+    stride = 1
+    for w in reversed(widths):
+        stride *= w
+        for r in (stride - 1, stride, stride + 1, stride + 2):
+            if 1 <= r <= n:
+                rows.add(r)
+    while len(rows) < 60:
+        rows.add(rng.randint(1, n))
+    rows = sorted(rows)
+    queries = [tuple(c) for c in itertools.product(*[(lo - 1, lo, hi, hi + 1) for lo, hi in zip(mins, maxs)])]
+    queries += [tuple(rng.randint(lo - 1, hi + 1) for lo, hi in zip(mins, maxs)) for _ in range(80)]
+    q = jnp.array(np.array(queries, dtype=np.int32).reshape(len(queries), d))
+    idx = jax.vmap(index_fn)(q)
+    return {"mins": list(mins), "maxs": list(maxs), "sampled": True, "nrows": int(n), "rows": rows,
+            "space": [[int(x) for x in sp[r - 1].reshape(-1)] for r in rows],
+            "queries": [list(map(int, v)) for v in queries],
+            "idx": [int(x) for x in np.asarray(idx).reshape(-1)]}
+
+
 def observe(mins, maxs):
     space, index_fn = create_range_space(jnp.array(mins), jnp.array(maxs))
     queries = list(itertools.product(*[range(lo - 1, hi + 2) for lo, hi in zip(mins, maxs)]))
     q = jnp.array(np.array(queries, dtype=np.int32).reshape(len(queries), len(mins)))
     idx = jax.vmap(index_fn)(q)
     sp = np.asarray(space)
-    return {"mins": list(mins), "maxs": list(maxs),
+    return {"mins": list(mins), "maxs": list(maxs), "sampled": False, "nrows": int(sp.shape[0]), "rows": [],
             "space": [[int(x) for x in row] for row in sp.reshape(sp.shape[0], -1)],
             "queries": [list(map(int, v)) for v in queries],
             "idx": [int(x) for x in np.asarray(idx).reshape(-1)]}
@@ -29,7 +58,7 @@ def observe(mins, maxs):
 
 def main():
     req = json.load(sys.stdin)
-    out = [observe(mins, maxs) for mins, maxs in req["boxes"]]
+    out = [observe_sampled(b[0], b[1], b[2]) if len(b) > 2 else observe(b[0], b[1]) for b in req["boxes"]]
     json.dump(out, open(req["out"], "w"))
 
 
